@@ -192,7 +192,7 @@ func StructOfFieldAddr(fa *ssa.FieldAddr) *types.Named {
 	if !ok {
 		return nil
 	}
-	n, _ := pt.Elem().(*types.Named)
+	n, _ := types.Unalias(pt.Elem()).(*types.Named)
 	return n
 }
 
